@@ -32,7 +32,7 @@ ASSUMPTIONS = ["Floyd-Warshall over the permitted arcs is the reference for reac
                "which of several optimal routes is returned is left free; only an existing consistent edge assignment is required"]
 EXHAUSTIVE = {"quick": "all 4 161 multigraphs with <= 3 nodes and <= 2 edges over weights {0,1,2} x 3 orientations, every ordered pair s != t",
               "thorough": "all 104 643 multigraphs with <= 3 nodes and <= 3 edges over weights {0,1,2} x 3 orientations, every ordered pair s != t"}
-CASE_LIMIT_S = 30.0
+CASE_LIMIT_S = 8.0
 
 NONE_IFF = "path.none_iff_unreachable"
 ROUTE = "path.walk_optimal_continuous"
@@ -102,8 +102,26 @@ def cases(chunk):
 
 def _spec_of(case):
     if case["kind"] == "tiny":
-        return G.tiny_spec(case["n"], [tuple(e) for e in case["edges"]], geom=True)
-    return case["g"]
+        spec = G.tiny_spec(case["n"], [tuple(e) for e in case["edges"]], geom=True)
+    else:
+        spec = case["g"]
+    if case["ord"] % 4 == 1:
+        # realistic magnitudes: the same network in projected map coordinates (its edges, a few metres to tens of
+        # metres long, are tiny next to the coordinates) and with some weights of millions
+        ox, oy = 652000.0, 6862000.0
+        spec = dict(spec)
+        spec["pos"] = [[p[0] + ox, p[1] + oy] for p in spec["pos"]]
+        edges = []
+        for k, e in enumerate(spec["edges"]):
+            e = list(e)
+            if len(e) > 4 and e[4]:
+                e[4] = [[q[0] + ox, q[1] + oy] for q in e[4]]
+            if (k + case["ord"]) % 3 == 0:
+                e[2] = e[2] + 2000000.0
+            edges.append(e)
+        spec["edges"] = edges
+        spec["map_scale"] = True
+    return spec
 
 
 # --------------------------------------------------------------------------
@@ -322,6 +340,51 @@ def run_case(case, ctx):
             cls.add("route_multi_hop")
         if len(path) >= 5:
             cls.add("route_4plus_edges")
+    # derived object: a sub-network extracted from this network (sharing its node and edge objects) answers path
+    # requests for ITS graph; so does the parent afterwards
+    if n >= 2 and case["ord"] % 3 == 0 and finite:
+        s0 = hrng.randrange(n)
+        cutv = hrng.choice(finite + [1e300]) + 0.25
+        sub = M.call(net.sub_network, ids[s0], cutv, "TOPOLOGIC", False)
+        if not M.is_raised(sub):
+            V = [v for v in range(n) if D[s0][v] != G.INF and D[s0][v] <= cutv]
+            keep = [k for k, e in enumerate(spec["edges"]) if e[0] in V and e[1] in V]
+            sub_spec = dict(spec)
+            sub_spec["edges"] = [spec["edges"][k] for k in keep]
+            Asub = G.arcs(sub_spec)
+            Dsub = G.floyd_warshall(n, Asub)
+            Vsub = sorted({e[0] for e in sub_spec["edges"]} | {e[1] for e in sub_spec["edges"]})
+            sp = [(a, b) for a in Vsub for b in Vsub if a != b]
+            hrng.shuffle(sp)
+            for (a, b) in sp[:8]:
+                for which, netw, DD, AA, specw in (("sub-network", sub, Dsub, Asub, sub_spec), ("parent network", net, D, A, spec)):
+                    trp = M.call(netw.shortest_path, ids[a], ids[b])
+                    ctx.monitor(NONE_IFF)
+                    d = DD[a][b]
+                    if M.is_raised(trp):
+                        return bad({"what": "shortest_path raised on the %s (a sub-network was extracted from the network)" % which,
+                                    "s": ids[a], "t": ids[b], "raised": trp})
+                    if d == G.INF:
+                        if trp is not None:
+                            return bad({"what": "a path is returned on the %s although the target is unreachable there" % which,
+                                        "s": ids[a], "t": ids[b]})
+                        continue
+                    if trp is None:
+                        return bad({"what": "no path returned on the %s although the target is reachable there" % which,
+                                    "s": ids[a], "t": ids[b], "true_distance": d, "extraction": [ids[s0], cutv]})
+                    path = getattr(trp, "path", None)
+                    coords = M.call(G.track_coords, trp)
+                    if M.is_raised(coords) or not isinstance(path, (list, tuple)) or len(path) < 2 \
+                            or any(q not in ids for q in path) or path[0] != ids[a] or path[-1] != ids[b]:
+                        return bad({"what": "path on the %s has no valid node list / coordinates" % which,
+                                    "s": ids[a], "t": ids[b], "path": repr(path)[:200]})
+                    ctx.monitor(ROUTE)
+                    prob, _fl = judge_route(specw, AA, [ids.index(q) for q in path], coords, d)
+                    if prob:
+                        return bad({"what": prob[0] + " (%s; a sub-network was extracted from the network)" % which,
+                                    "details": prob[1], "s": ids[a], "t": ids[b], "path": list(path),
+                                    "extraction": [ids[s0], cutv]})
+            cls.add("sub_network_queried")
     ctx.count("paths_validated", judged_paths)
     return held(sig, judged_paths > 0, sorted(cls))
 
